@@ -1,0 +1,60 @@
+//go:build verif
+
+package validationhelper
+
+// Re-exports of the unexported recognizer helpers for the differential
+// correspondence checks that live outside this repository. Add-only and
+// compiled only with the "verif" build tag.
+
+// UUID helpers.
+var (
+	VerifIsValidHexChar               = isValidHexChar
+	VerifHasValidHyphens              = hasValidHyphens
+	VerifHasValidHexChars             = hasValidHexChars
+	VerifIsValidUUIDVersionAndVariant = isValidUUIDVersionAndVariant
+)
+
+// Email helpers.
+var (
+	VerifFindAtSymbol            = findAtSymbol
+	VerifIsValidLocalPart        = isValidLocalPart
+	VerifIsValidLocalPartFormat  = isValidLocalPartFormat
+	VerifIsValidLocalPartChars   = isValidLocalPartChars
+	VerifIsValidLocalChar        = isValidLocalChar
+	VerifIsValidLocalSpecialChar = isValidLocalSpecialChar
+	VerifIsValidDomainPart       = isValidDomainPart
+	VerifValidateDomainLabels    = validateDomainLabels
+	VerifIsValidDomainLabel      = isValidDomainLabel
+	VerifIsValidDomainLabelChars = isValidDomainLabelChars
+	VerifIsValidDomainChar       = isValidDomainChar
+)
+
+// URL helpers.
+var (
+	VerifFindSchemeEnd             = findSchemeEnd
+	VerifIsValidSchemeChar         = isValidSchemeChar
+	VerifHasInvalidChars           = hasInvalidChars
+	VerifValidateSchemeWithoutHost = validateSchemeWithoutHost
+	VerifValidateSchemeWithHost    = validateSchemeWithHost
+	VerifIsValidHostStart          = isValidHostStart
+)
+
+// VerifValidSchemes returns a copy of the scheme table.
+func VerifValidSchemes() map[string]bool {
+	m := make(map[string]bool, len(validSchemes))
+	for k, v := range validSchemes {
+		m[k] = v
+	}
+
+	return m
+}
+
+// VerifSchemesNotRequiringHost returns a copy of the host-less scheme table.
+func VerifSchemesNotRequiringHost() map[string]bool {
+	m := make(map[string]bool, len(schemesNotRequiringHost))
+	for k, v := range schemesNotRequiringHost {
+		m[k] = v
+	}
+
+	return m
+}
